@@ -4,12 +4,61 @@ import (
 	"errors"
 	"runtime"
 	"runtime/debug"
+	"sync"
 
 	rt "github.com/arnodel/golua/runtime"
 )
 
-var gcPercent int
-var gcRunning bool
+// The Go collector is shared by all the runtimes of the process: it is switched
+// off while at least one runtime has stopped it, and each runtime only sees
+// its own request in collectgarbage("isrunning").
+var (
+	gcPercent  int        // the process's setting when this package was initialised
+	gcMu       sync.Mutex // protects gcStoppers and the calls to debug.SetGCPercent
+	gcStoppers int        // number of runtimes that have stopped the collector
+)
+
+// gcState is what a runtime remembers about its own use of collectgarbage.
+type gcState struct {
+	stopped bool
+}
+
+type gcStateKeyType struct{}
+
+var gcStateKey = rt.AsValue(gcStateKeyType{})
+
+func getGCState(r *rt.Runtime) *gcState {
+	st, ok := r.Registry(gcStateKey).Interface().(*gcState)
+	if !ok {
+		st = &gcState{}
+		r.SetRegistry(gcStateKey, rt.AsValue(st))
+	}
+	return st
+}
+
+func stopGC(st *gcState) {
+	gcMu.Lock()
+	defer gcMu.Unlock()
+	if !st.stopped {
+		st.stopped = true
+		gcStoppers++
+		if gcStoppers == 1 {
+			debug.SetGCPercent(-1)
+		}
+	}
+}
+
+func restartGC(st *gcState) {
+	gcMu.Lock()
+	defer gcMu.Unlock()
+	if st.stopped {
+		st.stopped = false
+		gcStoppers--
+		if gcStoppers == 0 {
+			debug.SetGCPercent(gcPercent)
+		}
+	}
+}
 
 func collectgarbage(t *rt.Thread, c *rt.GoCont) (rt.Cont, error) {
 	opt := "collect"
@@ -29,13 +78,11 @@ func collectgarbage(t *rt.Thread, c *rt.GoCont) (rt.Cont, error) {
 		t.CollectGarbage()
 		t.Push1(next, rt.BoolValue(true))
 	case "stop":
-		debug.SetGCPercent(-1)
-		gcRunning = false
+		stopGC(getGCState(t.Runtime))
 	case "restart":
-		debug.SetGCPercent(gcPercent)
-		gcRunning = gcPercent != -1
+		restartGC(getGCState(t.Runtime))
 	case "isrunning":
-		t.Push1(next, rt.BoolValue(gcRunning))
+		t.Push1(next, rt.BoolValue(gcPercent != -1 && !getGCState(t.Runtime).stopped))
 	case "setpause":
 		// TODO: perhaps change gcPercent to reflect this?
 	case "setstepmul":
@@ -52,6 +99,5 @@ func collectgarbage(t *rt.Thread, c *rt.GoCont) (rt.Cont, error) {
 
 func init() {
 	gcPercent = debug.SetGCPercent(-1)
-	gcRunning = gcPercent != -1
 	debug.SetGCPercent(gcPercent)
 }
